@@ -821,6 +821,22 @@ def run(ctx):
                           no_input=not any(v for v in ctx.violations if not v[2]),
                           theorem="correspondence CodecModel.run vs cloudsync.sync.state")
         stats["mismatches"] = len(mism)
+        # ---------------- engine stream: the real engine over a sqlite file, clean one-sided and restart histories; after
+        # EVERY engine step the rows in storage must decode to exactly the in-memory entries (harness/storage_oracle.py),
+        # so a step of the engine that changes entries without committing them is seen at that step
+        from .. import explore as X
+        from .. import families as F
+        from .. import enginecheck as EC
+        stats["engine"] = {}
+        for fam, nq, nt in (("one_sided", 500, 8000), ("restarts", 300, 4000)):
+            n_eng = nq if quick else nt
+            st_e, fails_e = X.explore(ctx, fam, n_eng, runner="run_storage_oracle")
+            fails_e = [f for f in fails_e if f[1][1] == 102]
+            stats["engine"][fam] = dict(runs=st_e["runs"], user_ops=st_e["user_ops"], observations=st_e["obs"], rejected=len(fails_e))
+            for i in range(st_e["runs"]):
+                dist.add(("engine", fam, ctx.seed, i))
+            X.report_failures(ctx, fails_e, runner=F.run_storage_oracle, relevant={102},
+                              what="storage differs from the in-memory entries after an engine step (C08) [%s]" % fam)
     cov = ctx.coverage
     cov["evaluations"] = dist.total
     cov["distinct_nontrivial"] = dist.nontrivial
@@ -828,8 +844,9 @@ def run(ctx):
                    "float/str incl. non-BMP/bytes/nested tuple/list/dict with str, bytes, int and tuple keys; all Exists, "
                    "IgnoreReason, saved-existence values) through the real serialize + load and through the model; "
                    "literal: one msgpack-written dict (current, legacy, malformed); commit: one history of 4-22 state-level "
-                   "operations with explicit dirty-set iteration orders, non-trivial when a commit left rows; distinct = "
-                   "distinct canonical inputs")
+                   "operations with explicit dirty-set iteration orders, non-trivial when a commit left rows; engine: one clean "
+                   "one-sided or restart history of the real engine over a sqlite file with storage compared with memory after "
+                   "every engine step; distinct = distinct canonical inputs")
     cov["exhaustive"] = False
     cov["samples"] = samples[:8]
     cov["streams"] = stats
